@@ -32,7 +32,7 @@ PROBES = ["copy_of_copy", "nice_on_scale_with_living_relative",
           "pool_size_5", "drop_then_use_relative", "domain_on_aliased", "range_on_aliased",
           "clamp_on_aliased", "magnitude_tiny", "magnitude_huge", "rejected_call_raised",
           "readonly_op", "unobserved_step", "range_list_edited_in_place_and_passed_again",
-          "foreign_library_activity"]
+          "foreign_library_activity", "constructed_with_arguments"]
 
 RULE = (
     "Each run draws (from one PRNG seeded by sha256(VERIF_SEED:scale:i)) a magnitude regime "
@@ -138,6 +138,11 @@ def gen_plan(rng, tier):
             pool += 1
         elif r < copy_p + nice_p:
             ops.append(["nice", i, rng.choice([None, None, 1, 2, 3, 5, 10, 20, 100, 0.5, 2.5])])
+        elif r < copy_p + nice_p + 0.03:
+            ops.append(["chain", i, _pair(rng, lo, hi, style), _pair(rng, lo, hi, rng.choice([style, "int"])),
+                        rng.random() < 0.4])
+        elif r < copy_p + nice_p + 0.05:
+            ops.append(["interp", i])
         elif r < copy_p + nice_p + 0.22:
             d = _pair(rng, lo, hi, style)
             if rng.random() < 0.03:
@@ -157,7 +162,11 @@ def gen_plan(rng, tier):
             ops.append(["drop", i])
             pool -= 1
         elif pool < max_pool and rng.random() < 0.3:
-            ops.append(["new"])
+            if rng.random() < 0.3:
+                ops.append(["new", "args", _pair(rng, lo, hi, style), _pair(rng, lo, hi, rng.choice([style, "int"])),
+                            rng.random() < 0.3])
+            else:
+                ops.append(["new"])
             pool += 1
         else:
             ops.append(["domain", i, _pair(rng, lo, hi, style)])
@@ -192,6 +201,8 @@ def well_formed(plan):
             if pool >= cap:
                 continue
             pool += 1
+        elif not isinstance(op[1], int):
+            continue
         else:
             op[1] = op[1] % pool
             if op[0] == "copy":
@@ -405,7 +416,7 @@ def _run(plan):
         kind = op[0]
         target = None
         if kind not in ("new", "foreign"):
-            if op[1] >= len(pool):
+            if not isinstance(op[1], int) or op[1] >= len(pool):
                 raise HarnessError("ill-formed plan: target %d of %d" % (op[1], len(pool)))
             target = pool[op[1]]
         aliased = target is not None and sum(1 for f in family if f == family[op[1]]) > 1
@@ -413,7 +424,15 @@ def _run(plan):
         new_scale = None
         readonly = kind in ("ticks", "tickformat", "call", "invert", "foreign")
         try:
-            if kind == "new":
+            if kind == "new" and len(op) > 1 and op[1] == "args":
+                # constructor arguments instead of setters (fresh lists, never touched again)
+                new_scale = LinearScale(list(op[2]), list(op[3]), None, op[4])
+                pool.append(new_scale)
+                family.append(next_family)
+                generation.append(0)
+                next_family += 1
+                bump("probe:constructed_with_arguments")
+            elif kind == "new":
                 new_scale = LinearScale()
                 pool.append(new_scale)
                 family.append(next_family)
@@ -493,6 +512,19 @@ def _run(plan):
                 # constructed and exported; no scale of the pool is involved
                 bump("probe:foreign_library_activity")
                 _foreign_activity(op[2])
+            elif kind == "chain":
+                # the setters return the scale: one chained expression
+                got = target.domain(list(op[2])).range(list(op[3])).clamp(op[4])
+                if got is not target:
+                    outcome = "raise:chain_does_not_return_self"
+                passed_range[id(target)] = None
+            elif kind == "interp":
+                # the default interpolator set explicitly (semantically a no-op), and the getters
+                from labella.scale import d3_interpolate
+
+                target.interpolate()
+                target.interpolate(d3_interpolate)
+                target.rangeRound([0, 1])
             elif kind == "ticks":
                 bump("probe:readonly_op")
                 list(target.ticks(op[2]))
@@ -517,7 +549,7 @@ def _run(plan):
             touched.add(id(target))
         if new_scale is not None:
             touched.add(id(new_scale))
-        if aliased and kind in ("domain", "range", "range_reuse", "clamp", "nice", "bad_nice", "bad_domain"):
+        if aliased and kind in ("domain", "range", "range_reuse", "clamp", "nice", "bad_nice", "bad_domain", "chain", "interp"):
             bump("fault:alias:fired")
             bump("fault:alias:configured")
             if kind in ("domain", "range", "clamp"):
@@ -525,7 +557,8 @@ def _run(plan):
         if len(pool) >= 5:
             bump("probe:pool_size_5")
         v = None
-        if outcome.startswith("raise") and kind in ("domain", "range", "range_reuse", "clamp", "nice", "copy", "new"):
+        if outcome.startswith("raise") and kind in ("domain", "range", "range_reuse", "clamp", "nice", "copy", "new",
+                                                    "chain", "interp"):
             # a documented call on documented arguments must not raise ... unless
             # the scale is degenerate (division by zero is outside the property)
             d = list(target.domain()) if target is not None else [0, 1]
